@@ -1626,6 +1626,14 @@ func toStatementApi(s *oc.Statement) *api.Statement {
 	if s.Conditions.BgpConditions.RouteType != "" {
 		cs.RouteType = api.Conditions_RouteType(s.Conditions.BgpConditions.RouteType.ToInt())
 	}
+	switch s.Conditions.BgpConditions.OriginEq {
+	case oc.BGP_ORIGIN_ATTR_TYPE_IGP:
+		cs.Origin = api.OriginType_ORIGIN_TYPE_IGP
+	case oc.BGP_ORIGIN_ATTR_TYPE_EGP:
+		cs.Origin = api.OriginType_ORIGIN_TYPE_EGP
+	case oc.BGP_ORIGIN_ATTR_TYPE_INCOMPLETE:
+		cs.Origin = api.OriginType_ORIGIN_TYPE_INCOMPLETE
+	}
 	if len(s.Conditions.BgpConditions.NextHopInList) > 0 {
 		l := make([]string, 0, len(s.Conditions.BgpConditions.NextHopInList))
 		for _, nh := range s.Conditions.BgpConditions.NextHopInList {
